@@ -196,6 +196,11 @@ func (f changeFinder) walkStruct(from, to *value) bool {
 			pos := f.Interface().(token.Pos)
 			if pos.IsValid() {
 				starts[i] = pos
+			} else {
+				// A token that is absent (the "..." of a call
+				// without one) would be written where the
+				// previous field ends.
+				starts[i] = lastEnd
 			}
 		default:
 			// Otherwise the start position is the end position of the last
